@@ -170,6 +170,7 @@ def compile_col_expr(
         # happens for more aggregation functions, make this configurable in e.g. the
         # operator spec.     --> do we want it for str.join??
         if expr.op.ftype == Ftype.AGGREGATE and expr.op not in (
+            ops.count,
             ops.count_star,
             ops.list_agg,
         ):
